@@ -104,8 +104,20 @@ Check(r, idx) ==
         timeouts == {x \in rets : x.err = "timeout"}
         refBad == {x \in rets : x.op = "Refresh" /\ x.err = "" /\ x.v \notin loadedVals(1)}
         future == {x \in rets : x.op \in {"Get", "BulkGet"} /\ x.err = "" /\ \E y \in exits : y.k = x.k /\ y.v = x.v /\ y.err = "" /\ y.seq > x.seq}
+        \* C10 / C11: what the caller finds in the cache right after its call returned successfully ("post" records).  Judged
+        \* only where nothing can have taken the value away again: no writer of any kind, nothing written by the loader
+        \* itself, no expiry, no loader run that answered not-found.
+        posts == {e \in ev : e.t = "post"}
+        removedBefore(e) == \E a \in aevs : a.seq < e.seq /\ a.err # "Replacement"
+        undisturbed == wcalls = {} /\ r.sc.expiry = 0 /\ r.sc.inloader = <<>> /\ ~\E x \in exits : x.err \in {"nf", "nfw"}
+        \* a Get that returned a value and does not find the key afterwards
+        notCached == {e \in posts : e.op = "Get" /\ e.err = "miss" /\ ~removedBefore(e)}
+        \* a Refresh whose successful result has been delivered while the cache still serves the replaced value (or nothing)
+        notSwapped == {e \in posts : e.op = "Refresh" /\ ~removedBefore(e) /\ (e.err = "miss" \/ (r.sc.preload = 1 /\ e.v = 50))}
     IN
-    (IF r.diag # "" /\ pendingCalls # {} THEN <<F(idx, "C08.hang", <<r.diag, {c.g : c \in pendingCalls}>>)>> ELSE <<>>)
+    (IF undisturbed /\ notCached # {} THEN <<F(idx, "C10.returned_value_not_cached", notCached)>> ELSE <<>>)
+    \o (IF undisturbed /\ notSwapped # {} THEN <<F(idx, "C11.result_delivered_before_swap", notSwapped)>> ELSE <<>>)
+    \o (IF r.diag # "" /\ pendingCalls # {} THEN <<F(idx, "C08.hang", <<r.diag, {c.g : c \in pendingCalls}>>)>> ELSE <<>>)
     \o (IF r.hung = 1 THEN <<F(idx, "C08.later_get_hangs", r.inflight)>> ELSE <<>>)
     \o (IF \E x \in rets : x.err = "timeout" THEN <<F(idx, "C08.refresh_result_missing", {x \in rets : x.err = "timeout"})>> ELSE <<>>)
     \o (IF timeouts # {} THEN <<F(idx, "C11.refresh_result_missing", timeouts)>> ELSE <<>>)
